@@ -232,9 +232,20 @@ Proof.
 Qed.
 Print Assumptions C10_pairs_are_changes.
 
+(* A user listener that raises (at whichever notifications: cfg.lfault) changes nothing: the
+   states passed through, what every later notification carries and the results of all ops are
+   the same as with listeners that never raise.  In particular "previously delivered" includes
+   a delivery whose listener raised. *)
+Theorem C10_listener_faults_do_not_matter :
+  forall c c' ops,
+    regs c = regs c' -> kregs c = kregs c' -> sraise c = sraise c' -> aregs c = aregs c' ->
+    steps c init ops = steps c' init ops.
+Proof. intros c c' ops R K S A. apply steps_cfg. repeat split; assumption. Qed.
+Print Assumptions C10_listener_faults_do_not_matter.
+
 (* ---- non-vacuity ------------------------------------------------------------------------------ *)
 
-Definition ex_cfg : cfg := {| regs := [1; 0]; kregs := [0; 3]; sraise := []; aregs := [0] |}.
+Definition ex_cfg : cfg := {| regs := [1; 0]; kregs := [0; 3]; sraise := []; aregs := [0]; lfault := [] |}.
 
 Example C10_ex_run :
   outs ex_cfg init [Start; Post 0 0; Post 1 0; Post 0 0; Post 0 1; RunAll;
@@ -256,7 +267,7 @@ Proof. rewrite (C10_notify_iff_changed ex_cfg 0); reflexivity. Qed.
 (* the updater of protocol 1 (iterated first) fails in stop(): stop() raises, protocol 0's updater keeps
    its listener, yet neither the scheduled nor a later status is delivered *)
 Example C10_ex_stop_raises :
-  run {| regs := [1; 0]; kregs := []; sraise := [1]; aregs := [] |} init [Start; Post 0 1; Stop; RunAll; Post 0 2; RunAll] =
+  run {| regs := [1; 0]; kregs := []; sraise := [1]; aregs := []; lfault := [0] |} init [Start; Post 0 1; Stop; RunAll; Post 0 2; RunAll] =
     [([], ROk); ([], ROk); ([], RRaise); ([], ROk); ([], ROk); ([], ROk)].
 Proof. vm_compute. reflexivity. Qed.
 
